@@ -696,6 +696,311 @@ theorem handleTag_sim {E : γ → γ → Prop} {inpS inpW : Bytes} {δ : Nat} (F
     rw [h3.eq.flags]
     exact OpRel.ok _ h3
 
+/-! ### non-tag lexemes -/
+
+/-- everything a text chunk does to the dispatcher -/
+theorem textTok_desc (hcl : ∃ E, TextBlind ctl E) (d : Disp γ) (b : Bytes) (tt : TextType) (l : Bool) (s : Range) :
+    (Disp.tokenProduced ctl d (.text b tt l s)).2 = .ok () ∧
+    (Disp.tokenProduced ctl d (.text b tt l s)).1.ctl = (ctl.token d.ctl (.text b tt l s)).1 ∧
+    DSame { d with ctl := (ctl.token d.ctl (.text b tt l s)).1 } (Disp.tokenProduced ctl d (.text b tt l s)).1 ∧
+    (Disp.tokenProduced ctl d (.text b tt l s)).1.rcs = d.rcs ∧
+    sinkBytes (Disp.tokenProduced ctl d (.text b tt l s)).1.sink = sinkBytes d.sink ++
+      (if d.emissionEnabled = true then b else []) := by
+  obtain ⟨E, hcl⟩ := hcl
+  obtain ⟨a1, a2, a3, a4, a5, a6, a7, a8, a9, a10, a11, a12, a13⟩ := tokenProduced_desc (ctl := ctl) d (.text b tt l s)
+  obtain ⟨c1, c2, c3⟩ := hcl.text_ok d.ctl b tt l s
+  rw [c1] at a13; rw [c2] at a11; rw [c3] at a12
+  exact ⟨a13, a1, ⟨a1, a3, a4, a5, a6, a7, a8, a9, a10, a11⟩, a2, a12⟩
+
+theorem emitChunkBefore_desc (d : Disp γ) (input : Bytes) (raw : Range) :
+    (∃ m, d.emitChunkBefore input raw = .error (.panic m)) ∨
+    ∃ d1, d.emitChunkBefore input raw = .ok d1 ∧ DSame d d1 ∧ d1.rcs = raw.start ∧ d.rcs ≤ raw.start ∧
+      raw.start ≤ input.length ∧
+      sinkBytes d1.sink = sinkBytes d.sink ++ (if d.emissionEnabled = true then LolHtml.slice input d.rcs raw.start else []) := by
+  unfold Disp.emitChunkBefore
+  cases hcs : checkedSlice input ⟨d.rcs, raw.start⟩ with
+  | none => exact Or.inl ⟨_, rfl⟩
+  | some chunk =>
+    right
+    obtain ⟨h1, h2, h3⟩ := checkedSlice_some hcs
+    simp only at h1 h2 h3
+    refine ⟨_, rfl, ?_, rfl, h1, h2, ?_⟩
+    · split <;> exact ⟨rfl, rfl, rfl, rfl, rfl, rfl, rfl, rfl, rfl, rfl⟩
+    · simp only
+      rw [← h3]
+      cases hE : d.emissionEnabled with
+      | false => simp
+      | true =>
+        simp only [Bool.true_and, if_true]
+        split
+        · simp [Disp.push]
+        · rename_i hne
+          have : chunk = [] := by
+            cases chunk with
+            | nil => rfl
+            | cons x xs => simp at hne
+          simp [this]
+
+/-- everything `produce_text` (one text lexeme under the TEXT flag) does -/
+theorem produceText_desc (hcl : ∃ E, TextBlind ctl E) (d : Disp γ) (input : Bytes) (lx : NonTagLexeme) (tt : TextType) :
+    EPanic (d.produceText ctl input lx tt).2 ∨
+    ∃ rawb, checkedSlice input lx.raw = some rawb ∧ d.rcs ≤ lx.raw.start ∧
+      (d.produceText ctl input lx tt).2 = .ok () ∧
+      (d.produceText ctl input lx tt).1.ctl = (ctl.token d.ctl (.text rawb tt false (srcOf lx.prevConsumed lx.raw))).1 ∧
+      (d.produceText ctl input lx tt).1.flags = d.flags ∧
+      (d.produceText ctl input lx tt).1.emissionEnabled = d.emissionEnabled ∧
+      (d.produceText ctl input lx tt).1.lastTextType = tt ∧
+      (d.produceText ctl input lx tt).1.gotFlagsFromHint = d.gotFlagsFromHint ∧
+      (d.produceText ctl input lx tt).1.pendingAux = d.pendingAux ∧
+      (d.produceText ctl input lx tt).1.textPending = true ∧
+      (d.produceText ctl input lx tt).1.textPendingStart = lx.prevConsumed + lx.raw.end ∧
+      (d.produceText ctl input lx tt).1.encoding = d.encoding ∧
+      (d.produceText ctl input lx tt).1.nextEncoding = d.nextEncoding ∧
+      (d.produceText ctl input lx tt).1.rcs = lx.raw.end ∧
+      sinkBytes (d.produceText ctl input lx tt).1.sink = sinkBytes d.sink ++
+        (if d.emissionEnabled = true then LolHtml.slice input d.rcs lx.raw.start ++ rawb else []) := by
+  unfold Disp.produceText
+  cases hr : checkedSlice input lx.raw with
+  | none => exact Or.inl trivial
+  | some rawb =>
+    simp only
+    rcases emitChunkBefore_desc d input lx.raw with ⟨m, he⟩ | ⟨d1, he, hs, h1, h2, h3, h4⟩
+    · left; rw [he]; simp [DRes.ofExcept, DRes.bind, EPanic]
+    · right
+      rw [he]
+      simp only [DRes.ofExcept, DRes.bind]
+      obtain ⟨t1, t2, t3, t4, t5⟩ := textTok_desc hcl { d1 with lastTextType := tt } rawb tt false (srcOf lx.prevConsumed lx.raw)
+      rw [t1]
+      simp only
+      refine ⟨rawb, rfl, h2, trivial, by rw [t2]; simp only; rw [hs.ctl], by rw [t3.flags]; exact hs.flags,
+        by rw [t3.em]; exact hs.em, by rw [t3.ltt], by rw [t3.gffh]; exact hs.gffh, by rw [t3.paux]; exact hs.paux, trivial, trivial,
+        by rw [t3.enc]; exact hs.enc, by rw [t3.nenc]; exact hs.nenc, trivial, ?_⟩
+      rw [t5]
+      simp only
+      rw [h4, hs.em]
+      cases d.emissionEnabled <;> simp
+
+/-- `produce_text` cannot fail when its slices are in range -/
+theorem produceText_noPanic (hcl : ∃ E, TextBlind ctl E) (d : Disp γ) (input : Bytes) (lx : NonTagLexeme) (tt : TextType)
+    (h1 : lx.raw.start ≤ lx.raw.end) (h2 : lx.raw.end ≤ input.length) (h3 : d.rcs ≤ lx.raw.start) :
+    ¬ EPanic (d.produceText ctl input lx tt).2 := by
+  intro hp
+  unfold Disp.produceText at hp
+  have hr : checkedSlice input lx.raw = some (LolHtml.slice input lx.raw.start lx.raw.end) := by
+    unfold checkedSlice; rw [if_pos ⟨h1, h2⟩]
+  rw [hr] at hp
+  simp only at hp
+  rcases emitChunkBefore_desc d input lx.raw with ⟨m, he⟩ | ⟨d1, he, hs, _⟩
+  · unfold Disp.emitChunkBefore at he
+    have : checkedSlice input ⟨d.rcs, lx.raw.start⟩ = some (LolHtml.slice input d.rcs lx.raw.start) := by
+      unfold checkedSlice; rw [if_pos ⟨h3, by simp only; omega⟩]
+    rw [this] at he
+    cases he
+  · rw [he] at hp
+    simp only [DRes.ofExcept, DRes.bind] at hp
+    obtain ⟨t1, _⟩ := textTok_desc hcl { d1 with lastTextType := tt }
+      (LolHtml.slice input lx.raw.start lx.raw.end) tt false (srcOf lx.prevConsumed lx.raw)
+    rw [t1] at hp
+    exact hp
+
+/-- a text lexeme under related dispatchers without debt -/
+theorem produceText_sim {E : γ → γ → Prop} {inpS inpW : Bytes} {δ : Nat} (F : Frame inpS inpW δ) (hcl : TextBlind ctl E)
+    {ds dw : Disp γ} (h : DK0 E inpS inpW δ ds dw) (pc : Nat) (raw : Range) (o o' : Option NonTagOutline) (tt : TextType) :
+    OpRel (DK0 E inpS inpW δ) (ds.produceText ctl inpS ⟨pc + δ, raw, o⟩ tt) (dw.produceText ctl inpW ⟨pc, shR δ raw, o'⟩ tt) := by
+  rcases produceText_desc ⟨E, hcl⟩ ds inpS ⟨pc + δ, raw, o⟩ tt with hp | ⟨rawb, a0, a1, a2, a3, a4, a5, a6, a7, a8, a9, a10, a11, a12, a13, a14⟩
+  · exact Or.inl hp
+  · simp only at a0 a1
+    obtain ⟨r1, r2, r3⟩ := checkedSlice_some a0
+    have hl := F.len
+    have hle := h.bytes.rcs_le
+    rcases produceText_desc ⟨E, hcl⟩ dw inpW ⟨pc, shR δ raw, o'⟩ tt with hp | ⟨rawb', b0, b1, b2, b3, b4, b5, b6, b7, b8, b9, b10, b11, b12, b13, b14⟩
+    · exact (produceText_noPanic ⟨E, hcl⟩ dw inpW ⟨pc, shR δ raw, o'⟩ tt (by simp only [shR]; omega) (by simp only [shR]; omega)
+        (by simp only [shR]; omega) hp).elim
+    · simp only at b0 b1
+      rw [F.checkedSlice a0] at b0
+      simp only [Option.some.injEq] at b0
+      subst b0
+      right
+      refine ⟨by rw [a2, b2], fun _ => ?_⟩
+      refine ⟨?_, ⟨by rw [a4, b4]; exact h.eq.flags, by rw [a5, b5]; exact h.eq.em, by rw [a7, b7]; exact h.eq.gffh,
+        by rw [a8, b8]; exact h.eq.paux, by rw [a11, b11]; exact h.eq.enc, by rw [a12, b12]; exact h.eq.nenc⟩,
+        ⟨by rw [a6, b6], by rw [a9, b9], by rw [a10, b10]; simp only [shR]; omega⟩,
+        ⟨by rw [a13, b13]; simp [shR], ?_⟩, by rw [a5]; exact h.emT⟩
+      · rw [a3, b3]
+        simp only
+        rw [srcOf_sh]
+        exact hcl.text_cong _ _ _ _ _ _ h.ctl
+      · rw [a14, b14, a13, b13, a5, h.eq.em, h.bytes.bytes]
+        simp only [h.emT, if_true, shR]
+        have e1 : LolHtml.slice inpW (raw.end + δ) (raw.end + δ) = [] := by unfold LolHtml.slice; simp
+        have e2 : LolHtml.slice inpS ds.rcs raw.start = LolHtml.slice inpW (ds.rcs + δ) (raw.start + δ) :=
+          (F.slice (by omega)).symm
+        rw [e1, e2, List.append_nil, List.append_assoc, ← List.append_assoc (LolHtml.slice inpW dw.rcs (ds.rcs + δ)),
+          slice_append_slice inpW hle (by omega)]
+
+def TokRel (ctl : Controller γ) (inpS : Bytes) (raw : Range) : Option Token → Option Token → Prop
+  | none, none => True
+  | some tok, some tok' => (∀ g, ctl.token g tok = ctl.token g tok') ∧ tokIsText tok' = false ∧
+      raw.start ≤ raw.end ∧ raw.end ≤ inpS.length
+  | _, _ => False
+
+theorem nonTagToToken_sim {E : γ → γ → Prop} {inpS inpW : Bytes} {δ : Nat} (F : Frame inpS inpW δ) (hcl : TextBlind ctl E)
+    (f : Flags) (pc : Nat) (raw : Range) (o : Option NonTagOutline) (r : Option Token)
+    (h : nonTagToToken f inpS ⟨pc + δ, raw, o⟩ = some r) :
+    ∃ r', nonTagToToken f inpW ⟨pc, shR δ raw, o.map (shNonTag δ)⟩ = some r' ∧ TokRel ctl inpS raw r r' := by
+  unfold nonTagToToken at h ⊢
+  cases o with
+  | none => simp only [Option.some.injEq] at h; subst h; exact ⟨none, rfl, trivial⟩
+  | some o =>
+    cases o with
+    | text tt => simp only [Option.some.injEq] at h; subst h; exact ⟨none, rfl, trivial⟩
+    | eof => simp only [Option.some.injEq] at h; subst h; exact ⟨none, rfl, trivial⟩
+    | comment text =>
+      simp only [Option.map_some, shNonTag] at h ⊢
+      by_cases hf : f.comments = true
+      · rw [if_pos hf] at h ⊢
+        cases ht : checkedSlice inpS text with
+        | none => rw [ht] at h; simp at h
+        | some t =>
+          cases hr : checkedSlice inpS raw with
+          | none => rw [ht, hr] at h; simp at h
+          | some rawb =>
+            rw [ht, hr] at h
+            simp only [Option.some.injEq] at h
+            subst h
+            rw [F.checkedSlice ht, F.checkedSlice hr]
+            obtain ⟨r1, r2, _⟩ := checkedSlice_some hr
+            exact ⟨_, rfl, fun g => by rw [srcOf_sh], rfl, r1, r2⟩
+      · rw [if_neg hf] at h ⊢
+        simp only [Option.some.injEq] at h; subst h; exact ⟨none, rfl, trivial⟩
+    | doctype dt =>
+      simp only [Option.map_some, shNonTag] at h ⊢
+      by_cases hf : f.doctypes = true
+      · rw [if_pos hf] at h ⊢
+        cases hr : checkedSlice inpS raw with
+        | none => rw [hr] at h; simp at h
+        | some rawb =>
+          rw [hr] at h
+          simp only [Option.some.injEq] at h
+          subst h
+          rw [F.checkedSlice hr]
+          obtain ⟨r1, r2, _⟩ := checkedSlice_some hr
+          refine ⟨_, rfl, fun g => ?_, rfl, r1, r2⟩
+          rw [srcOf_sh]
+          exact hcl.token_doctype g _ _ _ _ _ _ _ _ _
+      · rw [if_neg hf] at h ⊢
+        simp only [Option.some.injEq] at h; subst h; exact ⟨none, rfl, trivial⟩
+
+/-- **`LexemeSink::handle_non_tag_content`**, no text debt -/
+theorem handleNonTag_sim {E : γ → γ → Prop} {inpS inpW : Bytes} {δ : Nat} (F : Frame inpS inpW δ) (hcl : TextBlind ctl E)
+    {ds dw : Disp γ} (h : DK0 E inpS inpW δ ds dw) (pc : Nat) (raw : Range) (o : Option NonTagOutline) :
+    OpRel (DK0 E inpS inpW δ) (Disp.handleNonTag ctl inpS ⟨pc + δ, raw, o⟩ ds)
+      (Disp.handleNonTag ctl inpW ⟨pc, shR δ raw, o.map (shNonTag δ)⟩ dw) := by
+  unfold Disp.handleNonTag
+  have hnt : ∀ {ds dw : Disp γ}, DK0 E inpS inpW δ ds dw → (∀ tt, o ≠ some (.text tt)) →
+      OpRel (DK0 E inpS inpW δ) (ds.produceNonTag ctl inpS ⟨pc + δ, raw, o⟩)
+        (dw.produceNonTag ctl inpW ⟨pc, shR δ raw, o.map (shNonTag δ)⟩) := by
+    intro ds dw h hno
+    have key : OpRel (DK0 E inpS inpW δ)
+        (match nonTagToToken ds.flags inpS ⟨pc + δ, raw, o⟩ with
+          | none => (ds, .error (.panic "Bytes::slice out of range in to_token"))
+          | some none => (ds, .ok ())
+          | some (some tok) => ds.emitToken ctl inpS raw tok)
+        (match nonTagToToken dw.flags inpW ⟨pc, shR δ raw, o.map (shNonTag δ)⟩ with
+          | none => (dw, .error (.panic "Bytes::slice out of range in to_token"))
+          | some none => (dw, .ok ())
+          | some (some tok) => dw.emitToken ctl inpW (shR δ raw) tok) := by
+      rw [h.eq.flags]
+      cases hr : nonTagToToken ds.flags inpS ⟨pc + δ, raw, o⟩ with
+      | none => exact Or.inl trivial
+      | some r =>
+        obtain ⟨r', hw, hrel⟩ := nonTagToToken_sim F hcl ds.flags pc raw o r hr
+        rw [hw]
+        cases r with
+        | none =>
+          cases r' with
+          | none => exact OpRel.ok () h
+          | some _ => exact hrel.elim
+        | some tok =>
+          cases r' with
+          | none => exact hrel.elim
+          | some tok' =>
+            obtain ⟨hn, hnt, hr1, hr2⟩ := hrel
+            exact emitToken_sim F hcl h raw tok tok' hn hnt ⟨hr1, hr2⟩
+    unfold Disp.produceNonTag
+    cases o with
+    | none => exact key
+    | some o =>
+      cases o with
+      | text tt => exact (hno tt rfl).elim
+      | comment t => exact key
+      | doctype dt => exact key
+      | eof => exact key
+  obtain ⟨f1, f2, f3, _, _⟩ := flushPendingText_sim hcl h
+  have hflush : OpRel (DK0 E inpS inpW δ) (ds.flushPendingText ctl) (dw.flushPendingText ctl) :=
+    Or.inr ⟨by rw [f1, f2], fun _ => f3⟩
+  cases o with
+  | none =>
+    simp only [NonTagLexeme.isText, Option.map_none, Bool.false_eq_true, if_false]
+    exact bind_rel hflush (fun ds1 dw1 _ h1 => hnt h1 (fun _ hh => by cases hh))
+  | some o =>
+    cases o with
+    | text tt =>
+      simp only [NonTagLexeme.isText, Option.map_some, shNonTag, if_true]
+      refine bind_rel (R := DK0 E inpS inpW δ) (OpRel.ok () h) (fun ds1 dw1 _ h1 => ?_)
+      unfold Disp.produceNonTag
+      simp only
+      rw [h1.eq.flags]
+      split
+      · exact produceText_sim F hcl h1 pc raw _ _ tt
+      · exact OpRel.ok () h1
+    | comment t =>
+      simp only [NonTagLexeme.isText, Option.map_some, shNonTag, Bool.false_eq_true, if_false]
+      exact bind_rel hflush (fun ds1 dw1 _ h1 => hnt h1 (fun _ hh => by cases hh))
+    | doctype dt =>
+      simp only [NonTagLexeme.isText, Option.map_some, shNonTag, Bool.false_eq_true, if_false]
+      exact bind_rel hflush (fun ds1 dw1 _ h1 => hnt h1 (fun _ hh => by cases hh))
+    | eof =>
+      simp only [NonTagLexeme.isText, Option.map_some, shNonTag, Bool.false_eq_true, if_false]
+      exact bind_rel hflush (fun ds1 dw1 _ h1 => hnt h1 (fun _ hh => by cases hh))
+
+/-! ### tag hints -/
+
+theorem applyHintFlags_sim {E : γ → γ → Prop} {inpS inpW : Bytes} {δ : Nat} {ds dw : Disp γ}
+    (h : DK0 E inpS inpW δ ds dw) (f : Flags) :
+    OpRel (DK0 E inpS inpW δ) (ds.applyHintFlags f) (dw.applyHintFlags f) := by
+  unfold Disp.applyHintFlags Disp.nextDirective
+  exact OpRel.ok _ ((h.setFlags f).setGffh _)
+
+theorem startTagHint_sim {E : γ → γ → Prop} {inpS inpW : Bytes} {δ : Nat} (hcl : TextBlind ctl E) {ds dw : Disp γ}
+    (h : DK0 E inpS inpW δ ds dw) (n : LocalName) (ns : Ns) :
+    OpRel (DK0 E inpS inpW δ) (Disp.startTagHint ctl n ns ds) (Disp.startTagHint ctl n ns dw) := by
+  unfold Disp.startTagHint
+  obtain ⟨h1, h2⟩ := hcl.start ds.ctl dw.ctl n ns h.ctl
+  simp only
+  rw [← h1]
+  cases (ctl.startTag ds.ctl n ns).2 with
+  | flags f => exact applyHintFlags_sim (h.setCtl h2) f
+  | infoRequest => exact OpRel.ok _ (((h.setCtl h2).setGffh false).setPaux true)
+  | err e => exact Or.inr ⟨rfl, fun ⟨a, ha⟩ => by cases ha⟩
+
+theorem endTagHint_sim {E : γ → γ → Prop} {inpS inpW : Bytes} {δ : Nat} (hcl : TextBlind ctl E) {ds dw : Disp γ}
+    (h : DK0 E inpS inpW δ ds dw) (n : LocalName) :
+    OpRel (DK0 E inpS inpW δ) (Disp.endTagHint ctl n ds) (Disp.endTagHint ctl n dw) := by
+  unfold Disp.endTagHint
+  obtain ⟨f1, f2, f3, _, _⟩ := flushPendingText_sim hcl h
+  have hflush : OpRel (DK0 E inpS inpW δ) (ds.flushPendingText ctl) (dw.flushPendingText ctl) :=
+    Or.inr ⟨by rw [f1, f2], fun _ => f3⟩
+  refine bind_rel hflush (fun ds1 dw1 _ h1 => ?_)
+  obtain ⟨e1, e2⟩ := hcl.endT ds1.ctl dw1.ctl n h1.ctl
+  have s1 : Disp.shouldStopRemoving ctl { ds1 with ctl := (ctl.endTag ds1.ctl n).1 } = false := by
+    unfold Disp.shouldStopRemoving; simp [h1.emT]
+  have s2 : Disp.shouldStopRemoving ctl { dw1 with ctl := (ctl.endTag dw1.ctl n).1 } = false := by
+    unfold Disp.shouldStopRemoving; simp [h1.eq.em, h1.emT]
+  simp only [s1, s2, Bool.false_eq_true, if_false]
+  rw [← e1]
+  exact applyHintFlags_sim (h1.setCtl e2) _
+
 end
 
 end LolHtml.Model.Chunk
